@@ -441,6 +441,55 @@ def enabledPending (flTok : String) (fl : Flavour) (h : History) : List String :
         some s!"{flTok}:{opName x.2.1}:{enabledShape fl sf x.2.1}"
       else none
 
+/-- the last operation thread `t` called in (the reversed) history `rev` -/
+def lastCallF (t : Nat) : List EvF → Option OpF
+  | [] => none
+  | .call u o :: r => if u = t then some o else lastCallF t r
+  | _ :: r => lastCallF t r
+
+/-- futures whose `dropfut` answered `ok:woken` (dropped after they had been woken, before they were polled again) -/
+def wokenDropped (h : HistoryF) : List Nat :=
+  (h.foldl (fun (acc : List (Nat × Nat) × List Nat) e =>
+    match e with
+    | .call t (.dropfut g) => ((t, g) :: acc.1.filter (fun x => x.1 != t), acc.2)
+    | .call t _ => (acc.1.filter (fun x => x.1 != t), acc.2)
+    | .ret t r =>
+      match acc.1.lookup t with
+      | some g => (acc.1.filter (fun x => x.1 != t), if r.tag == .ok && r.val == .none then g :: acc.2 else acc.2)
+      | none => acc) ([], [])).2
+
+def futKind (op : Op) : String :=
+  match op with
+  | .snd .send _ _ => "send_fut" | .snd _ _ _ => "send_batch_fut"
+  | .rcv .recv _ _ => "recv_fut" | _ => "recv_batch_fut"
+
+def isSendOp' (op : Op) : Bool :=
+  match op with
+  | .snd _ _ _ => true
+  | _ => false
+
+/-- Signature of a lost wake-up found by the checker: the future whose "not woken" observation (`wakes f => n:0`,
+`dropfut f => ok`) ends the shortest unexplainable prefix names the form; if a future of the same direction was
+dropped after it had been woken (`ok:woken`) before that point, the wake-one was swallowed by it (finding F2:
+`:after-woken-future-dropped`, the suffix the harness monitor uses). -/
+def lostWakeSigs (st : CaseSt) (h : HistoryF) (cfgF : Cfg) : List String :=
+  let k := ((List.range (h.length + 1)).find? (fun k => (linearizeF st.fl cfgF (h.take k) false).isNone)).getD h.length
+  let pre := h.take k
+  let culprit : Option Nat :=
+    match pre.getLast? with
+    | some (.ret t _) =>
+      match lastCallF t pre.reverse with
+      | some (.wakes f) => some f
+      | some (.dropfut f) => some f
+      | _ => none
+    | _ => none
+  match culprit.bind (fun f => (st.futOps.lookup f).map (fun o => (f, o))) with
+  | some (f, o) =>
+    let swallowed := (wokenDropped pre).any (fun g => g != f &&
+      (match st.futOps.lookup g with | some og => isSendOp' og == isSendOp' o | none => false))
+    [s!"{st.flTok}:{futKind o}:pending-enabled-not-woken" ++ (if swallowed then ":after-woken-future-dropped" else "")]
+  | none => ((st.futOps.map (fun x => futKind x.2)).eraseDups).map (fun k => s!"{st.flTok}:{k}:pending-enabled-not-woken")
+
 def finish (liveness : Bool) (st : CaseSt) : Except String (List String) :=
   match st.skip with
   | some why => .ok [why]
@@ -455,11 +504,7 @@ def finish (liveness : Bool) (st : CaseSt) : Except String (List String) :=
           .error s!"blocked-op-enabled-at-quiescence sig={st.flTok}:fut:blocked-enabled status={st.status}"
         else if (linearizeF st.fl { cfgF with wakeRule := false } h false).isSome then
           -- explainable only if a polled, pending future that got no wake-up is allowed to be enabled: a lost wakeup
-          let kinds := st.futOps.map (fun x => match x.2 with
-            | .snd .send _ _ => "send_fut" | .snd _ _ _ => "send_batch_fut"
-            | .rcv .recv _ _ => "recv_fut" | _ => "recv_batch_fut")
-          let sigs := (kinds.eraseDups).map (fun k => s!"{st.flTok}:{k}:pending-enabled-not-woken")
-          .error s!"pending-enabled-not-woken sig={",".intercalate sigs}"
+          .error s!"pending-enabled-not-woken sig={",".intercalate (lostWakeSigs st h cfgF)}"
         else
           let k := (List.range (h.length + 1)).find? (fun k => (linearizeF st.fl cfgF (h.take k) false).isNone)
           .error s!"not-linearizable (futures) prefix={k.getD 0} of={h.length}"
